@@ -32,6 +32,7 @@ type Scenario struct {
 	Rm          bool   `json:"rm,omitempty"`
 	OutRel      string `json:"out_rel,omitempty"` // relative to the module root; "" = stdout
 	PkgVariant  string `json:"pkg_variant,omitempty"`
+	DirMode     string `json:"dir_mode,omitempty"` // octal mode given to the existing directory nearest to -out before the run
 }
 
 func (s *Scenario) toMap() map[string]any {
@@ -106,6 +107,7 @@ func (h *H) drawCase(rt *rapid.T, prop string, excl map[string]int) *core.Case {
 		p.Evolve = true
 		p.UniqueAliases = h.Open["F-K"]
 		p.SameAliasPct = 20
+		p.MockLikeParamPct = 25
 		p.AliasPct = 40
 		p.MinDeps = 1
 	case "C17", "C18":
@@ -185,6 +187,9 @@ func (h *H) drawCase(rt *rapid.T, prop string, excl map[string]int) *core.Case {
 		if prop == "C18" && g.Chance(35) {
 			s.PkgVariant = g.Pick([]string{"existing-dir", "missing-dir", "needs-require"})
 		}
+		if s.OutRel != "" && g.Chance(35) {
+			s.DirMode = g.Pick([]string{"0700", "0750", "0775", "02775", "0711", "01777"})
+		}
 		if s.Fault == "badarg" || s.Fault == "badarg-stdout" {
 			bads := []string{"NoSuchIface", "", ":", "nope:Alias"}
 			if c.Cfg.Fmt != "noop" {
@@ -217,6 +222,9 @@ func (h *H) drawCase(rt *rapid.T, prop string, excl map[string]int) *core.Case {
 	c.AddLabel("prior:" + s.Prior)
 	if s.Rm {
 		c.AddLabel("rm")
+	}
+	if s.DirMode != "" {
+		c.AddLabel("dirmode:" + s.DirMode)
 	}
 	return c
 }
